@@ -102,13 +102,13 @@ def gen_scenario(seed, family="mixed"):
         # a worker leaves through the memory-leak protection, then long tasks must still get a full pool
         mw = rnd.choice([1, 2, 2, 3])
         nt = mw + rnd.randint(0, 2)
-        pre = rnd.randint(2, 4)
+        pre = rnd.randint(3, 5)
         tasks = [{"body": "ok", "quick": True}] * pre + [{"body": "ok"}] * nt
         u0 = [["create"]] + [["submit", k] for k in range(pre)] + [["idle"]] * rnd.choice([15, 30]) + \
              [["submit", k] for k in range(pre, pre + nt)]
         return {"kind": "plain", "max_workers": mw, "timeout": None, "tasks": tasks, "family": "saturate", "long_from": pre,
-                "leak_after": [0], "users": [u0], "sched": {"p_timeout": 0.0, "p_crash": 0.0, "max_crashes": 0}}
-    if family == "reusesaturate":
+                "leak_after": list(range(1, pre)), "users": [u0], "sched": {"p_timeout": 0.0, "p_crash": 0.0, "max_crashes": 0}}
+    if family == "satreuse":
         # a reusable executor created small, grown, then given a burst of long tasks
         small, big = rnd.choice([(1, 3), (1, 4), (2, 4), (1, 2)])
         tasks = [{"body": "ok"}] * big
